@@ -348,6 +348,14 @@ def run(ctx):  # noqa: C901
     tv = ret_last(vec, inline=False)
     okc = tv is not None and "('tuple', ('c', -1), ('c', 1))" in repr(tv)
     ctx.ob("R-LAYOUT", vec, "vec returns a column (n, 1)", okc, "reshape((-1, 1))" if okc else "shape changed")
+    # vec / unvec only re-arrange entries: every return is a reshape of the argument itself, nothing post-processes the values (np.real_if_close
+    # has an ABSOLUTE threshold of 100 eps: a complex ket with amplitudes of that size loses its whole imaginary part)
+    for f_, arg_ in ((vec, "mat"), (unvec, "vector")):
+        rts_, _ = return_terms(m, f_, inline=True)
+        pure = bool(rts_) and all(t[0] == "call" and ((isinstance(t[1], tuple) and t[1][0] == "attr" and t[1][2] == "reshape" and t[1][1] == ("n", arg_)) or
+                                                       (t[1] == "numpy.reshape" and t[2] and t[2][0] == ("n", arg_))) for _, _, t in rts_)
+        ctx.ob("R-LAYOUT", f_, f"{f_.name} is a pure reshape of its argument (values untouched)", pure,
+               "reshape only" if pure else f"returns {show(rts_[0][2])[:80] if rts_ else '?'}: the entries pass through a value-changing wrapper")
     cmt = F(m, "commutant")
     Nc = Normalizer(m, cmt, inline=False)
     form = None
